@@ -44,7 +44,8 @@ From Coq Require Import List NArith ZArith.
 From CliUtils Require Import Model.ActuationTable Model.PipelineTypes Model.Pipeline Corr.CorrPipeline
      Proofs.PipelineBase Proofs.PipelineAuth Proofs.PipelineMisc Proofs.PipelineMonBase
      Proofs.PipelineOrphansRun Proofs.PipelineMonC02
-     Proofs.PipelineMonC03d Proofs.PipelineMonC03 Proofs.PipelineMonC03FixA Proofs.PipelineMonC03Fix.
+     Proofs.PipelineMonC03d Proofs.PipelineMonC03 Proofs.PipelineMonC03FixA Proofs.PipelineMonC03Fix
+     Proofs.PipelineMonC03Destroy.
 Import ListNotations.
 
 (* ---- the retention table ------------------------------------------------------------------ *)
@@ -281,6 +282,16 @@ Example C03_fixpoint_nonvacuous :
          (run (fix_ex_sc true) (out_final (run (fix_ex_sc true) fix_ex_c0))) = true.
 Proof. split; [apply fix_ex_WF|]. vm_compute. repeat split; auto 10. Qed.
 
+(* ---- destroy: the inventory object is deleted or keeps something ------------------------------- *)
+(* the executable check `c03_destroy_done` of the correspondence holds of the model's own run: after an
+   error-free, non-dry-run destroy the stored inventory is never an EMPTY object -- the inventory-set
+   task deletes the inventory object, or rewrites it with a non-empty retained set (a failed delete, a
+   skipped delete that was not detached, a tracked invalid id, an object whose reconcile failed or
+   timed out) *)
+Theorem C03_destroy_never_leaves_empty_inventory : forall sc c0,
+  WF sc c0 -> c03_destroy_done sc (run sc c0) = true.
+Proof. exact destroy_never_leaves_empty_inventory. Qed.
+
 Print Assumptions C03_inventory_equation_partial.
 Print Assumptions C03_final_write.
 Print Assumptions C03_detached_leave.
@@ -300,3 +311,4 @@ Print Assumptions C03_stable_bool.
 Print Assumptions C03_fixpoint_two_needs_prune_agree.
 Print Assumptions C03_fixpoint_two_needs_nodup.
 Print Assumptions C03_fixpoint_two_needs_same_universe.
+Print Assumptions C03_destroy_never_leaves_empty_inventory.
